@@ -28,3 +28,8 @@ add("C11", "model_checking",
     "For hand-written programs built to make order matter (bindings that error next to bindings that match, several error kinds, rule groups) and systematically generated error-free programs (every check kind x threshold x alternatives x policy list, authorizer-only and token with origins), every ranking of the recorded key universe (<= 6 keys: all k!; larger: all rankings within 2 deviations + seeded) is imposed on a freshly built, a cloned and a snapshot-restored authorizer; the set of observations (authorize result incl. policy index, ordered failed checks, error kind; sorted query results; iterations) must be a singleton. Each order is run twice and must replay identically.",
     "Hash order modelled as one global key ranking per execution through the H1 seam; virtual clock frozen; 9 order-dependent programs are listed as known findings (first-binding short-circuit in find_match / check_match_all / run).",
     "DESIGN.md §3 C11")
+add("C10", "model_checking",
+    "explicit enumeration of API call sequences x programs x limit classes under a virtual clock driven by work ticks (controlled environment), with budget invariants checked after every call",
+    "Every call sequence up to depth 2 (quick) / 3 (thorough) over {run, authorize, authorize_with_limits, query, query_all, query_with_limits, clone, snapshot->restore} on one Authorizer, for every program family (chains needing exactly L iterations, fan-out, k-way joins = one expensive iteration, preloaded facts, mixed; in the authorizer or in a token block) and every limit class (each budget at 0, 1, need-1, need, need+1, others unlimited; all at / below the boundary). Time is virtual: each candidate examined by the join iterator costs 1 microsecond. Invariants: a completed evaluation call never leaves iterations(), fact_count() or cumulative virtual time above the budget (S1); after the deadline passes the call returns within 32 x (facts + body predicates + 1) ticks (S2); no panic.",
+    "Virtual time (H2/H3 seams) replaces wall-clock time; the promptness allowance is a stated operationalisation; two known findings (time of failed calls forgotten; no clock read inside a join).",
+    "DESIGN.md §3 C10")
